@@ -1,1 +1,875 @@
-/- C04 — theorems (placeholder until the property is built). -/
+/-
+  C04 — Validity flags, NaN costs and invalid disparities tell one coherent story.
+
+  Part 1 (criteria): theorems about `Model/Criteria.lean` — the mask built by `criteria.py` with the cost
+  volume satisfies every "before validation" clause of the specification, for all images, masks,
+  intervals, windows and sub-pixel factors.
+  Part 2 (later steps): theorems about `Model/FlagSteps.lean` — no undocumented bit for any pipeline
+  whatever `+=` carries; each step changes only its own bits when the bit it adds is clear; therefore for
+  every pipeline when the sites use `|=`, and for every pipeline without a repeated refinement or
+  interpolation with the `+=` of the source today; counterexamples for the repeated ones.
+  Part 3 (source): the flag sites regenerated from the source on this run are the documented ones; the
+  theorems instantiated with the operators the source uses now.
+-/
+import PandoraModel.Lemmas.C04Criteria
+import PandoraModel.Lemmas.C04Bits
+import PandoraModel.Lemmas.C04Steps
+import PandoraModel.Generated.Constants
+import PandoraModel.Generated.FlagOps
+
+namespace Pandora.C04
+open Pandora.Criteria Pandora.Flags Pandora.FlagSteps
+
+/-! ## Part 1 — the criteria mask -/
+
+theorem hasBit_lit (f k : Nat) : hasBit f (2 ^ k) = decide (f / 2 ^ k % 2 = 1) := by
+  rw [hasBit_two_pow, testBit_divmod]
+
+theorem hasBit_1 (f : Nat) : hasBit f 1 = decide (f % 2 = 1) := by simpa using hasBit_lit f 0
+theorem hasBit_2 (f : Nat) : hasBit f 2 = decide (f / 2 % 2 = 1) := by simpa using hasBit_lit f 1
+theorem hasBit_4 (f : Nat) : hasBit f 4 = decide (f / 4 % 2 = 1) := by simpa using hasBit_lit f 2
+theorem hasBit_8 (f : Nat) : hasBit f 8 = decide (f / 8 % 2 = 1) := by simpa using hasBit_lit f 3
+theorem hasBit_16 (f : Nat) : hasBit f 16 = decide (f / 16 % 2 = 1) := by simpa using hasBit_lit f 4
+theorem hasBit_32 (f : Nat) : hasBit f 32 = decide (f / 32 % 2 = 1) := by simpa using hasBit_lit f 5
+theorem hasBit_64 (f : Nat) : hasBit f 64 = decide (f / 64 % 2 = 1) := by simpa using hasBit_lit f 6
+theorem hasBit_128 (f : Nat) : hasBit f 128 = decide (f / 128 % 2 = 1) := by simpa using hasBit_lit f 7
+
+theorem preInvalidBits_eq : preInvalidBits = 2 ^ 0 ||| (2 ^ 1 ||| (2 ^ 6 ||| 2 ^ 7)) := by decide
+
+theorem isInvalidPre_eq (f : Nat) :
+    isInvalidPre f = (decide (f % 2 = 1) || (decide (f / 2 % 2 = 1) || (decide (f / 64 % 2 = 1) || decide (f / 128 % 2 = 1)))) := by
+  unfold isInvalidPre
+  rw [preInvalidBits_eq]
+  simp only [and_or_ne_zero, and_two_pow_ne_zero, testBit_divmod]
+  simp
+
+theorem maskInvalidVar_eq (a : Bool) (f : Nat) :
+    maskInvalidVar a f = if a && !decide (f / 2 % 2 = 1) then f + 2 else f := by
+  unfold maskInvalidVar
+  have h := and_two_pow_eq_zero f 1
+  rw [testBit_divmod] at h
+  simp only [Nat.pow_one] at h
+  simp only [rightNodataOrRangeMissing, h]
+  cases a <;> simp
+
+
+/-! ### closed form of the mask -/
+
+/-- in-image pixel that `mask_border` does not overwrite -/
+structure Interior (I : Input) (r c : Nat) : Prop where
+  r1 : I.off ≤ r
+  r2 : r + I.off < I.rows
+  c1 : I.off ≤ c
+  c2 : c + I.off < I.cols
+
+theorem interior_of_not_border (I : Input) (r c : Nat) (hr : r < I.rows) (hc : c < I.cols)
+    (hb : isBorder I r c = false) : Interior I r c := by
+  unfold isBorder Criteria.inBorder at hb
+  by_cases h0 : 0 < I.off
+  · simp [h0] at hb
+    exact ⟨by omega, by omega, by omega, by omega⟩
+  · have : I.off = 0 := by omega
+    exact ⟨by omega, by omega, by omega, by omega⟩
+
+theorem not_border_of_interior (I : Input) (r c : Nat) (h : Interior I r c) : isBorder I r c = false := by
+  obtain ⟨h1, h2, h3, h4⟩ := h
+  unfold isBorder Criteria.inBorder
+  by_cases h0 : 0 < I.off
+  · simp [h0]; omega
+  · simp [h0]
+
+theorem Interior.col {I : Input} {r c : Nat} (h : Interior I r c) : ColInterior I c := ⟨h.c1, h.c2⟩
+
+/-- the six indicators the criteria add, as 0/1 numbers -/
+def leftDil (I : Input) (r c : Nat) : Bool := I.hasL && dilated I.rows I.cols I.off I.mL r c
+def leftInv (I : Input) (r c : Nat) : Bool := I.hasL && (I.mL r c == Cls.invalid)
+
+theorem stage1_eq (I : Input) (r c : Nat) (hd : I.dmin ≤ I.dmax) :
+    stage1 I r c = 4 * (vmBit2 I c).toNat + 2 * (vmBit1 I c).toNat + (leftDil I r c).toNat
+      + 64 * (leftInv I r c).toNat + 128 * (I.hasR && right7 I r c).toNat + 2 * (I.hasR && rightN I r c).toNat := by
+  unfold stage1 vm1 allocLeft leftDil leftInv
+  simp only [allocRight_eq _ _ _ _ hd, rightIncompleteRange, rightNodataOrRangeMissing, leftNodataOrBorder,
+    inValidityMaskLeft, inValidityMaskRight]
+  cases vmBit2 I c <;> cases vmBit1 I c <;> cases I.hasL <;> cases I.hasR <;>
+    cases dilated I.rows I.cols I.off I.mL r c <;> cases (I.mL r c == Cls.invalid) <;>
+    cases right7 I r c <;> cases rightN I r c <;> simp
+
+theorem right7_excl (I : Input) (r c : Nat) : vmBit1 I c = true → right7 I r c = false := by
+  intro h; simp [right7, h]
+theorem rightN_excl (I : Input) (r c : Nat) : vmBit1 I c = true → rightN I r c = false := by
+  intro h; simp [rightN, h]
+
+
+/-! ### the NaN pattern: each cause of invalidity makes every cost of the pixel NaN -/
+
+theorem sample_in_interval (J : CvInput) (j : Nat) (hj : j < nDisp J) :
+    J.dmin ≤ J.dmin + ((j / J.subpix : Nat) : Int) ∧ J.dmin + ((j / J.subpix : Nat) : Int) ≤ J.dmax ∨ J.dmax < J.dmin := by
+  unfold nDisp at hj
+  by_cases hd : J.dmax < J.dmin
+  · exact Or.inr hd
+  · left
+    have h1 : j / J.subpix ≤ (J.dmax - J.dmin).toNat := by
+      apply Nat.div_le_of_le_mul
+      rw [Nat.mul_comm]; omega
+    have h2 : ((j / J.subpix : Nat) : Int) ≤ ((J.dmax - J.dmin).toNat : Int) := Int.ofNat_le.mpr h1
+    have h3 : (0 : Int) ≤ ((j / J.subpix : Nat) : Int) := Int.natCast_nonneg _
+    generalize ((j / J.subpix : Nat) : Int) = q at h2 h3 ⊢
+    omega
+
+theorem rightOk_false_of_not_inIdx (J : CvInput) (r c : Nat) (d : Int) (h : inIdx J.toInput c d = false) :
+    rightOk J r ((c : Int) + d) = false := by
+  unfold rightOk
+  simp only [inIdx, decide_eq_false_iff_not] at h
+  have : decide ((J.off : Int) ≤ (c : Int) + d ∧ (c : Int) + d + (J.off : Int) ≤ (J.cols : Int) - 1) = false := by
+    simp only [decide_eq_false_iff_not]; omega
+  simp [this]
+
+theorem rightOk_false_of_sat7 (J : CvInput) (r c : Nat) (d : Int) (hR : J.hasR = true)
+    (h : sat7 J.toInput r c d = true) : rightOk J r ((c : Int) + d) = false := by
+  unfold sat7 at h
+  by_cases hi : inIdx J.toInput c d = true
+  · simp [hi] at h
+    unfold rightOk; simp [hR, h]
+  · exact rightOk_false_of_not_inIdx J r c d (by simpa using hi)
+
+theorem rightOk_false_of_satN (J : CvInput) (r c : Nat) (d : Int) (hR : J.hasR = true)
+    (h : satN J.toInput r c d = true) : rightOk J r ((c : Int) + d) = false := by
+  unfold satN at h
+  by_cases hi : inIdx J.toInput c d = true
+  · simp [hi] at h
+    unfold rightOk; simp [hR, h]
+  · exact rightOk_false_of_not_inIdx J r c d (by simpa using hi)
+
+theorem computable_false_of_rightOk (J : CvInput) (r c j : Nat)
+    (h : rightOk J r ((c : Int) + (J.dmin + ((j / J.subpix : Nat) : Int))) = false) : computable J r c j = false := by
+  unfold computable
+  have e : (c : Int) + J.dmin + ((j / J.subpix : Nat) : Int) = (c : Int) + (J.dmin + ((j / J.subpix : Nat) : Int)) := by omega
+  simp only [e, h]
+  split <;> simp
+
+theorem allNan_of_forall (J : CvInput) (r c : Nat) (h : ∀ j, j < nDisp J → computable J r c j = false) :
+    allNanOf J r c = true := by
+  unfold allNanOf
+  simp only [List.all_eq_true, List.mem_range, Bool.not_eq_eq_eq_not, Bool.not_true]
+  exact h
+
+/-- every sample `j` of the pixel has its integer right position `⌊c + d⌋ = c + d'` with `d'` an integer
+    disparity of the global interval: what is true of all integer disparities is true of all samples -/
+theorem allNan_of_all_int (J : CvInput) (r c : Nat) (hd : J.dmin ≤ J.dmax)
+    (h : ∀ d : Int, J.dmin ≤ d → d ≤ J.dmax → rightOk J r ((c : Int) + d) = false) : allNanOf J r c = true := by
+  apply allNan_of_forall
+  intro j hj
+  apply computable_false_of_rightOk
+  rcases sample_in_interval J j hj with ⟨h1, h2⟩ | h3
+  · exact h _ h1 h2
+  · omega
+
+theorem allNan_of_vmBit1 (J : CvInput) (r c : Nat) (hd : J.dmin ≤ J.dmax)
+    (hc : ColInterior J.toInput c) (h : vmBit1 J.toInput c = true) : allNanOf J r c = true := by
+  have h0 := (inSet_eq_nil_iff J.toInput c).mp ((vmBit1_iff J.toInput c hc hd).mp h)
+  exact allNan_of_all_int J r c hd fun d h1 h2 => rightOk_false_of_not_inIdx J r c d (h0 d h1 h2)
+
+theorem allNan_of_right7 (J : CvInput) (r c : Nat) (hd : J.dmin ≤ J.dmax)
+    (hR : J.hasR = true) (h : right7 J.toInput r c = true) : allNanOf J r c = true := by
+  unfold right7 at h
+  simp only [Bool.and_eq_true, List.all_eq_true] at h
+  exact allNan_of_all_int J r c hd fun d h1 h2 =>
+    rightOk_false_of_sat7 J r c d hR (h.2 d (mem_dispList.mpr ⟨h1, h2⟩))
+
+theorem allNan_of_rightN (J : CvInput) (r c : Nat) (hd : J.dmin ≤ J.dmax)
+    (hR : J.hasR = true) (h : rightN J.toInput r c = true) : allNanOf J r c = true := by
+  unfold rightN at h
+  simp only [Bool.and_eq_true, List.all_eq_true] at h
+  exact allNan_of_all_int J r c hd fun d h1 h2 =>
+    rightOk_false_of_satN J r c d hR (h.2 d (mem_dispList.mpr ⟨h1, h2⟩))
+
+theorem allNan_of_leftDil (J : CvInput) (r c : Nat) (h : leftDil J.toInput r c = true) : allNanOf J r c = true := by
+  apply allNan_of_forall; intro j _
+  unfold leftDil at h
+  simp only [Bool.and_eq_true] at h
+  unfold computable; simp [h.1, h.2]
+
+theorem allNan_of_leftInv (J : CvInput) (r c : Nat) (h : leftInv J.toInput r c = true) : allNanOf J r c = true := by
+  apply allNan_of_forall; intro j _
+  unfold leftInv at h
+  simp only [Bool.and_eq_true] at h
+  unfold computable; simp [h.1, h.2]
+
+theorem allNan_of_not_interior (J : CvInput) (r c : Nat) (h : ¬ Interior J.toInput r c) : allNanOf J r c = true := by
+  apply allNan_of_forall; intro j _
+  have : winInside J.rows J.cols J.off r c = false := by
+    unfold winInside
+    simp only [decide_eq_false_iff_not]
+    intro ⟨h1, h2, h3, h4⟩
+    exact h ⟨h1, h2, h3, h4⟩
+  unfold computable; simp [this]
+
+
+/-! ### the bits of the mask after `cv_masked` -/
+
+/-- arithmetic of the flag word: six indicators added once each (the `bit_1` columns excluded from the right
+    mask), then `+ 2` for an all-NaN pixel whose bit 1 is clear — a complete case analysis on the Booleans -/
+theorem final_bits (b2 b1 bd bi b7 bn a : Bool) (f : Nat)
+    (hx : b1 = true → b2 = false ∧ b7 = false ∧ bn = false) (ha : (b1 || bn) = true → a = true)
+    (hf : f = (if a && !decide ((4 * b2.toNat + 2 * b1.toNat + bd.toNat + 64 * bi.toNat + 128 * b7.toNat + 2 * bn.toNat) / 2 % 2 = 1)
+                then 4 * b2.toNat + 2 * b1.toNat + bd.toNat + 64 * bi.toNat + 128 * b7.toNat + 2 * bn.toNat + 2
+                else 4 * b2.toNat + 2 * b1.toNat + bd.toNat + 64 * bi.toNat + 128 * b7.toNat + 2 * bn.toNat)) :
+    decide (f % 2 = 1) = bd ∧ decide (f / 2 % 2 = 1) = a ∧ decide (f / 4 % 2 = 1) = b2 ∧ decide (f / 64 % 2 = 1) = bi
+      ∧ decide (f / 128 % 2 = 1) = b7 ∧ f < 256 ∧ f / 8 % 2 = 0 ∧ f / 16 % 2 = 0 ∧ f / 32 % 2 = 0 := by
+  subst hf
+  revert hx ha
+  cases b2 <;> cases b1 <;> cases bd <;> cases bi <;> cases b7 <;> cases bn <;> cases a <;> decide
+
+theorem modelMask_interior (J : CvInput) (r c : Nat) (h : Interior J.toInput r c) :
+    modelMask J r c = maskInvalidVar (allNanOf J r c) (stage1 J.toInput r c) := by
+  unfold modelMask finalMask maskBorder
+  have hb := not_border_of_interior _ r c h
+  unfold isBorder at hb
+  by_cases h0 : 0 < J.off
+  · simp [h0] at hb; simp [h0, hb]
+  · simp [h0]
+
+theorem specBit0_interior (I : Input) (r c : Nat) (h : Interior I r c) : specBit0 I r c = leftDil I r c := by
+  unfold specBit0 leftDil
+  rw [not_border_of_interior I r c h, dilated_eq_nodataInWindow]; simp
+
+theorem specBit6_interior (I : Input) (r c : Nat) (h : Interior I r c) : specBit6 I r c = leftInv I r c := by
+  unfold specBit6 leftInv
+  rw [not_border_of_interior I r c h]; simp
+
+theorem specBit2_interior (I : Input) (r c : Nat) (h : Interior I r c) (hd : I.dmin ≤ I.dmax) :
+    specBit2 I r c = vmBit2 I c := by
+  unfold specBit2
+  rw [not_border_of_interior I r c h, Bool.eq_iff_iff, vmBit2_iff I c h.col hd]
+  simp only [Bool.not_false, Bool.true_and, Bool.and_eq_true, Bool.not_eq_eq_eq_not, Bool.not_true,
+    List.isEmpty_eq_false_iff, List.any_eq_true, ne_eq]
+  constructor
+  · rintro ⟨h1, d, hm, hf⟩
+    exact ⟨h1, d, (mem_dispList.mp hm).1, (mem_dispList.mp hm).2, by simpa using hf⟩
+  · rintro ⟨h1, d, a1, a2, hf⟩
+    exact ⟨h1, d, mem_dispList.mpr ⟨a1, a2⟩, by simpa using hf⟩
+
+theorem specBit7_interior (I : Input) (r c : Nat) (h : Interior I r c) (hd : I.dmin ≤ I.dmax) :
+    specBit7 I r c = (I.hasR && right7 I r c) := by
+  unfold specBit7 right7
+  rw [not_border_of_interior I r c h, Bool.eq_iff_iff]
+  have hv := vmBit1_iff I c h.col hd
+  simp only [Bool.not_false, Bool.true_and, Bool.and_eq_true, Bool.not_eq_eq_eq_not, Bool.not_true,
+    List.isEmpty_eq_false_iff, List.all_eq_true, ne_eq]
+  have hv' : vmBit1 I c = false ↔ ¬ inSet I c = [] := by
+    rw [← hv]; cases vmBit1 I c <;> simp
+  constructor
+  · rintro ⟨⟨hR, hne⟩, hall⟩
+    refine ⟨hR, hv'.mpr hne, ?_⟩
+    intro d hm
+    unfold sat7
+    by_cases hi : inIdx I c d = true
+    · have : d ∈ inSet I c := by unfold inSet; exact List.mem_filter.mpr ⟨hm, hi⟩
+      simp [hall d this]
+    · simp [hi]
+  · rintro ⟨hR, hb, hall⟩
+    refine ⟨⟨hR, hv'.mp hb⟩, ?_⟩
+    intro d hm
+    unfold inSet at hm
+    obtain ⟨hm1, hm2⟩ := List.mem_filter.mp hm
+    have := hall d hm1
+    unfold sat7 at this
+    simpa [hm2] using this
+
+theorem specBit1_interior (J : CvInput) (r c : Nat) (h : Interior J.toInput r c) : specBit1 J r c = allNanOf J r c := by
+  unfold specBit1
+  rw [not_border_of_interior _ r c h]; simp
+
+/-- **Interior pixels**: every bit of the model's mask is raised exactly when its documented cause holds, the
+    pixel carries an invalidating bit iff all its costs are NaN, and no other bit is ever set. -/
+theorem criteria_interior (J : CvInput) (r c : Nat) (hd : J.dmin ≤ J.dmax) (h : Interior J.toInput r c) :
+    hasBit (modelMask J r c) leftNodataOrBorder = specBit0 J.toInput r c
+    ∧ hasBit (modelMask J r c) inValidityMaskLeft = specBit6 J.toInput r c
+    ∧ hasBit (modelMask J r c) rightNodataOrRangeMissing = specBit1 J r c
+    ∧ hasBit (modelMask J r c) rightIncompleteRange = specBit2 J.toInput r c
+    ∧ hasBit (modelMask J r c) inValidityMaskRight = specBit7 J.toInput r c
+    ∧ isInvalidPre (modelMask J r c) = allNanOf J r c
+    ∧ modelMask J r c < 256 ∧ hasBit (modelMask J r c) 8 = false ∧ hasBit (modelMask J r c) 16 = false
+    ∧ hasBit (modelMask J r c) 32 = false := by
+  rw [specBit0_interior _ r c h, specBit6_interior _ r c h, specBit1_interior J r c h,
+    specBit2_interior _ r c h hd, specBit7_interior _ r c h hd]
+  have hx : vmBit1 J.toInput c = true → vmBit2 J.toInput c = false ∧ (J.hasR && right7 J.toInput r c) = false
+      ∧ (J.hasR && rightN J.toInput r c) = false := by
+    intro hb
+    exact ⟨vmBit1_vmBit2_excl _ c hb, by simp [right7_excl _ r c hb], by simp [rightN_excl _ r c hb]⟩
+  have ha : (vmBit1 J.toInput c || (J.hasR && rightN J.toInput r c)) = true → allNanOf J r c = true := by
+    intro hb
+    rcases (Bool.or_eq_true _ _).mp hb with h1 | h2
+    · exact allNan_of_vmBit1 J r c hd h.col h1
+    · simp only [Bool.and_eq_true] at h2
+      exact allNan_of_rightN J r c hd h2.1 h2.2
+  have key := final_bits (vmBit2 J.toInput c) (vmBit1 J.toInput c) (leftDil J.toInput r c) (leftInv J.toInput r c)
+    (J.hasR && right7 J.toInput r c) (J.hasR && rightN J.toInput r c) (allNanOf J r c) (modelMask J r c) hx ha
+    (by rw [modelMask_interior J r c h, maskInvalidVar_eq, stage1_eq _ r c hd])
+  generalize modelMask J r c = f at key ⊢
+  obtain ⟨k0, k1, k2, k6, k7, klt, k3, k4, k5⟩ := key
+  simp only [leftNodataOrBorder, inValidityMaskLeft, rightNodataOrRangeMissing, rightIncompleteRange,
+    inValidityMaskRight, hasBit_1, hasBit_2, hasBit_4, hasBit_8, hasBit_16, hasBit_32, hasBit_64, hasBit_128,
+    isInvalidPre_eq]
+  refine ⟨k0, k6, k1, k2, k7, ?_, klt, by simp [k3], by simp [k4], by simp [k5]⟩
+  rw [k0, k1, k6, k7]
+  -- invalid bit set <-> all NaN
+  cases ha' : allNanOf J r c
+  · -- not all NaN: none of the causes holds
+    have n1 : leftDil J.toInput r c = false := by
+      cases hq : leftDil J.toInput r c
+      · rfl
+      · rw [allNan_of_leftDil J r c hq] at ha'; cases ha'
+    have n2 : leftInv J.toInput r c = false := by
+      cases hq : leftInv J.toInput r c
+      · rfl
+      · rw [allNan_of_leftInv J r c hq] at ha'; cases ha'
+    have n3 : (J.hasR && right7 J.toInput r c) = false := by
+      cases hq : (J.hasR && right7 J.toInput r c)
+      · rfl
+      · simp only [Bool.and_eq_true] at hq
+        rw [allNan_of_right7 J r c hd hq.1 hq.2] at ha'; cases ha'
+    simp [n1, n2, n3]
+  · simp
+
+
+/-- **Border pixels** carry bit 0 only, and none of their costs is computable. -/
+theorem criteria_border (J : CvInput) (r c : Nat) (hb : isBorder J.toInput r c = true) :
+    modelMask J r c = leftNodataOrBorder ∧ allNanOf J r c = true := by
+  constructor
+  · unfold modelMask finalMask maskBorder
+    unfold isBorder at hb
+    simp only [Bool.and_eq_true, decide_eq_true_eq] at hb
+    simp [hb.1, hb.2]
+  · apply allNan_of_not_interior
+    intro hI
+    rw [not_border_of_interior _ r c hI] at hb
+    cases hb
+
+/-- what the disparity step may assume about `invalid_disparity`: NaN, or a value that is not one of the
+    disparity samples (in particular any value outside the searched interval) -/
+def InvalidNotSample (dmin : Int) (subpix n : Nat) (invalid : Val) : Prop :=
+  ∀ j, j < n → sameVal (Val.num ((dmin : Rat) + ((j : Nat) : Rat) / ((subpix : Nat) : Rat))) invalid = false
+
+theorem sameVal_refl (v : Val) : sameVal v v = true := by
+  cases v <;> simp [sameVal]
+
+theorem argBestAux_lt (isMax : Bool) (l : List Val) (i bi : Nat) (bv : Val) (h : bi < i) :
+    argBestAux isMax l i bi bv < i + l.length := by
+  induction l generalizing i bi bv with
+  | nil => simpa [argBestAux] using h
+  | cons v vs ih =>
+    unfold argBestAux
+    split
+    · have := ih (i + 1) i v (by omega); simp only [List.length_cons]; omega
+    · have := ih (i + 1) bi bv (by omega); simp only [List.length_cons]; omega
+
+theorem argBest_lt (isMax : Bool) (costs : List Val) (h : costs ≠ []) : argBest isMax costs < costs.length := by
+  cases costs with
+  | nil => exact absurd rfl h
+  | cons v vs =>
+    unfold argBest
+    have := argBestAux_lt isMax vs 1 0 v (by omega)
+    simp only [List.length_cons]; omega
+
+/-- the disparity of a pixel is the invalid value exactly when all its costs are NaN -/
+theorem toDisp_invalid_iff (isMax : Bool) (dmin : Int) (subpix : Nat) (invalid : Val) (costs : List Val)
+    (hinv : InvalidNotSample dmin subpix costs.length invalid) :
+    sameVal (toDisp isMax dmin subpix invalid costs) invalid = costs.all Val.isNan := by
+  unfold toDisp
+  cases hall : costs.all Val.isNan
+  · have hne : costs ≠ [] := by intro h0; simp [h0] at hall
+    simp only [Bool.false_eq_true, if_false]
+    exact hinv _ (argBest_lt isMax costs hne)
+  · simp [sameVal_refl]
+
+/-- **The specification holds of the model** (mask after `matching_cost`, NaN pattern, no disparity observed):
+    for every in-image pixel no clause fails. -/
+theorem criteria_spec (J : CvInput) (invalid : Val) (r c : Nat) (hd : J.dmin ≤ J.dmax)
+    (hr : r < J.rows) (hc : c < J.cols) :
+    failingClauses J invalid r c (modelMask J r c) (allNanOf J r c) none = [] := by
+  unfold failingClauses
+  cases hb : isBorder J.toInput r c
+  · have hI := interior_of_not_border _ r c hr hc hb
+    obtain ⟨k0, k6, k1, k2, k7, kinv, klt, k3, k4, k5⟩ := criteria_interior J r c hd hI
+    simp [k0, k6, k1, k2, k7, kinv, klt, k3, k4, k5, hb]
+  · obtain ⟨hm, hn⟩ := criteria_border J r c hb
+    have e1 : isInvalidPre 1 = true := by decide
+    have e0 : hasBit 1 1 = true := by decide
+    have e2 : hasBit 1 2 = false := by decide
+    have e4 : hasBit 1 4 = false := by decide
+    have e8 : hasBit 1 8 = false := by decide
+    have e16 : hasBit 1 16 = false := by decide
+    have e32 : hasBit 1 32 = false := by decide
+    have e64 : hasBit 1 64 = false := by decide
+    have e128 : hasBit 1 128 = false := by decide
+    simp [hm, hn, hb, specBit0, specBit6, specBit1, specBit2, specBit7, leftNodataOrBorder, inValidityMaskLeft,
+      rightNodataOrRangeMissing, rightIncompleteRange, inValidityMaskRight, e0, e1, e2, e4, e8, e16, e32, e64, e128]
+
+theorem failingClauses_some (J : CvInput) (invalid : Val) (r c f : Nat) (n : Bool) (d : Val) :
+    failingClauses J invalid r c f n (some d) = [] ↔
+      (failingClauses J invalid r c f n none = [] ∧ (sameVal d invalid == isInvalidPre f) = true) := by
+  unfold failingClauses
+  simp only [List.append_eq_nil_iff, List.append_nil]
+  cases (sameVal d invalid == isInvalidPre f) <;> simp <;> grind
+
+/-- ... and with the disparity map of the disparity step: the pixel carries an invalidating flag iff its
+    disparity is `invalid_disparity`, for any cost values that are NaN exactly where not computable. -/
+theorem criteria_spec_disp (J : CvInput) (invalid : Val) (isMax : Bool) (r c : Nat) (costs : List Val)
+    (hd : J.dmin ≤ J.dmax) (hr : r < J.rows) (hc : c < J.cols)
+    (hnan : costs.all Val.isNan = allNanOf J r c)
+    (hinv : InvalidNotSample J.dmin J.subpix costs.length invalid) :
+    failingClauses J invalid r c (modelMask J r c) (allNanOf J r c)
+      (some (toDisp isMax J.dmin J.subpix invalid costs)) = [] := by
+  rw [failingClauses_some]
+  refine ⟨criteria_spec J invalid r c hd hr hc, ?_⟩
+  have hdisp := toDisp_invalid_iff isMax J.dmin J.subpix invalid costs hinv
+  have hinvalid : isInvalidPre (modelMask J r c) = allNanOf J r c := by
+    cases hb : isBorder J.toInput r c
+    · exact (criteria_interior J r c hd (interior_of_not_border _ r c hr hc hb)).2.2.2.2.2.1
+    · obtain ⟨hm, hn⟩ := criteria_border J r c hb
+      rw [hm, hn]; decide
+  rw [hdisp, hnan, hinvalid]; simp
+
+
+/-! ## Part 2 — the steps after the disparity step -/
+
+/-- on a border pixel (flag 1) every step except a regularising `median_for_intervals` leaves the flag at 1 -/
+theorem stepFlag_border_one (ops : Ops) (s : Step) (hs : s ≠ .filterIntervals true) :
+    stepFlag ops true s leftNodataOrBorder = leftNodataOrBorder := by
+  have hi : isInvalid 1 = true := by decide
+  cases s with
+  | refine st => simp [stepFlag, refinePix, leftNodataOrBorder, hi]
+  | filter => rfl
+  | filterIntervals reg => cases reg <;> simp_all [stepFlag]
+  | crossCheck d => simp [stepFlag, borderPix]
+  | interpMcCnn fo fm => simp [stepFlag, borderPix]
+  | interpSgm near fm fo => simp [stepFlag, sgmPix, leftNodataOrBorder, occlusion, mismatch]
+
+/-- the own bits are raised in the documented relation to each other (8 xor 9; 4 replaces 8, 5 replaces 9) -/
+theorem replacementOK_of_clear (ops : Ops) (hreg : ops.reg = .or) (s : Step) (f : Nat) (h : RaiseClear ops s f) :
+    replacementOK s f (stepFlag ops false s f) = true := by
+  have hbit : ∀ j, (stepFlag ops false s f).testBit j = expectedBit s f j := fun j => stepFlag_testBit ops hreg s f j h
+  have hv : isInvalid f = false → f.testBit 8 = false ∧ f.testBit 9 = false := by
+    intro hv; rw [isInvalid_eq] at hv; simp only [Bool.or_eq_false_iff] at hv; exact ⟨hv.2.2.2.2.1, hv.2.2.2.2.2⟩
+  cases s <;> simp only [replacementOK, hbit, expectedBit]
+  · rename_i d
+    cases hi : isInvalid f
+    · obtain ⟨a, b⟩ := hv hi
+      cases d <;> simp [a, b]
+    · cases f.testBit 8 <;> cases f.testBit 9 <;> simp
+  · rename_i fo fm
+    cases f.testBit 4 <;> cases f.testBit 5 <;> cases f.testBit 8 <;> cases f.testBit 9 <;> cases fo <;> cases fm <;> decide
+  · rename_i near fm fo
+    cases f.testBit 4 <;> cases f.testBit 5 <;> cases f.testBit 8 <;> cases f.testBit 9 <;> cases near <;> cases fm <;>
+      cases fo <;> decide
+
+/-- **Each step changes only its own bits** (`later_steps_own_bits`, `bits_independent`,
+    `no_undocumented_bit`, `border_bit0_only` for one step): whenever the bit the step adds with `+=` is
+    currently clear — or the site uses `|=` — the observed transition satisfies the specification; a border
+    pixel (flag 1) keeps flag 1 unless the step is a regularising `median_for_intervals`. -/
+theorem stepOK_of_clear (ops : Ops) (hreg : ops.reg = .or) (border : Bool) (s : Step) (f : Nat) (hlt : f < 4096)
+    (h : RaiseClear ops s f) (hb : border = true → f = leftNodataOrBorder ∧ s ≠ .filterIntervals true) :
+    stepOK border s f (stepFlag ops border s f) = true := by
+  unfold stepOK
+  cases border
+  · simp only [Bool.false_eq_true, if_false, Bool.and_eq_true]
+    refine ⟨⟨⟨?_, replacementOK_of_clear ops hreg s f h⟩, ?_⟩, ?_⟩
+    · unfold onlyOwnRaised
+      rw [List.all_eq_true]
+      intro k _
+      cases hq : ((stepFlag ops false s f).testBit k && !f.testBit k)
+      · simp
+      · rw [stepFlag_testBit ops hreg s f k h] at hq
+        simp [expected_raised_own s f k hq]
+    · unfold nothingElseCleared
+      rw [List.all_eq_true]
+      intro k _
+      cases hq : (f.testBit k && !(stepFlag ops false s f).testBit k)
+      · simp
+      · rw [stepFlag_testBit ops hreg s f k h] at hq
+        simp [expected_cleared_may s f k hq]
+    · unfold documentedOnly
+      simpa using stepFlag_lt ops hreg false s f hlt
+  · obtain ⟨hf, hs⟩ := hb rfl
+    rw [hf, stepFlag_border_one ops s hs]
+    simp
+
+/-! ### any pipeline -/
+
+def isRefine : Step → Bool
+  | .refine _ => true
+  | _ => false
+
+def isFill : Step → Bool
+  | .interpMcCnn _ _ => true
+  | .interpSgm _ _ _ => true
+  | _ => false
+
+/-- a pipeline that runs at most one refinement and at most one interpolation (any number of filters and
+    of cross-checkings) -/
+def NoRepeat (steps : List Step) : Bool :=
+  decide (steps.countP isRefine ≤ 1) && decide (steps.countP isFill ≤ 1)
+
+/-- what the criteria mask guarantees to the later steps: below 256, bits 3, 4, 5 clear -/
+def FlagInit (f : Nat) : Prop := f < 256 ∧ f.testBit 3 = false ∧ f.testBit 4 = false ∧ f.testBit 5 = false
+
+/-- no regularising `median_for_intervals` step is applied to a border pixel -/
+def BorderSafe (border : Bool) (steps : List Step) : Bool :=
+  !border || steps.all fun s => s != .filterIntervals true
+
+/-- the invariant: bit 3 is clear while a refinement is still to come, bits 4 and 5 while an interpolation is
+    still to come, bits 8 and 9 are never both set, a border pixel carries exactly bit 0 -/
+def FlagInv (border : Bool) (steps : List Step) (f : Nat) : Prop :=
+  f < 4096 ∧ (f.testBit 8 && f.testBit 9) = false
+  ∧ (1 ≤ steps.countP isRefine → f.testBit 3 = false)
+  ∧ (1 ≤ steps.countP isFill → f.testBit 4 = false ∧ f.testBit 5 = false)
+  ∧ steps.countP isRefine ≤ 1 ∧ steps.countP isFill ≤ 1
+  ∧ (border = true → f = leftNodataOrBorder ∧ BorderSafe border steps = true)
+
+theorem flagInv_of_init (border : Bool) (steps : List Step) (f : Nat) (h : FlagInit f) (hn : NoRepeat steps = true)
+    (hb : border = true → f = leftNodataOrBorder ∧ BorderSafe border steps = true) :
+    FlagInv border steps f := by
+  obtain ⟨h1, h3, h4, h5⟩ := h
+  unfold NoRepeat at hn
+  simp only [Bool.and_eq_true, decide_eq_true_eq] at hn
+  have h8 : f.testBit 8 = false := Nat.testBit_lt_two_pow (by omega)
+  exact ⟨by omega, by simp [h8], fun _ => h3, fun _ => ⟨h4, h5⟩, hn.1, hn.2, hb⟩
+
+theorem raiseClear_of_inv (ops : Ops) (border : Bool) (s : Step) (ss : List Step) (f : Nat)
+    (h : FlagInv border (s :: ss) f) : RaiseClear ops s f := by
+  obtain ⟨_, h89, h3, h45, _, _, _⟩ := h
+  cases s <;> simp only [RaiseClear]
+  · exact Or.inr (h3 (by simp [isRefine]))
+  · have := h45 (by simp [isFill]); exact Or.inr this
+  · have := h45 (by simp [isFill]); exact Or.inr ⟨this.1, this.2, h89⟩
+
+theorem borderSafe_cons (border : Bool) (s : Step) (ss : List Step) (h : BorderSafe border (s :: ss) = true)
+    (hb : border = true) : s ≠ .filterIntervals true ∧ BorderSafe border ss = true := by
+  unfold BorderSafe at h ⊢
+  subst hb
+  simp only [Bool.not_true, Bool.false_or, List.all_cons, Bool.and_eq_true, bne_iff_ne, ne_eq] at h ⊢
+  exact ⟨h.1, by simpa using h.2⟩
+
+theorem expectedBit_3 (s : Step) (f : Nat) (h : isRefine s = false) : expectedBit s f 3 = f.testBit 3 := by
+  cases s <;> simp [isRefine] at h <;> simp [expectedBit]
+
+theorem expectedBit_45 (s : Step) (f : Nat) (h : isFill s = false) :
+    expectedBit s f 4 = f.testBit 4 ∧ expectedBit s f 5 = f.testBit 5 := by
+  cases s <;> simp [isFill] at h <;> simp [expectedBit]
+
+theorem expectedBit_89 (s : Step) (f : Nat) (h89 : (f.testBit 8 && f.testBit 9) = false) :
+    (expectedBit s f 8 && expectedBit s f 9) = false := by
+  have hv : isInvalid f = false → f.testBit 8 = false ∧ f.testBit 9 = false := by
+    intro hv; rw [isInvalid_eq] at hv; simp only [Bool.or_eq_false_iff] at hv; exact ⟨hv.2.2.2.2.1, hv.2.2.2.2.2⟩
+  cases s <;> simp only [expectedBit]
+  · simpa using h89
+  · exact h89
+  · simpa using h89
+  · rename_i d
+    cases hv' : isInvalid f
+    · obtain ⟨a, b⟩ := hv hv'
+      cases d <;> simp [a, b]
+    · simpa using h89
+  · rename_i fo fm
+    cases a : f.testBit 8 <;> cases b : f.testBit 9 <;> cases fo <;> cases fm <;> simp_all
+  · rename_i near fm fo
+    cases a : f.testBit 8 <;> cases b : f.testBit 9 <;> cases near <;> cases fm <;> cases fo <;> simp_all
+
+theorem flagInv_step (ops : Ops) (hreg : ops.reg = .or) (border : Bool) (s : Step) (ss : List Step) (f : Nat)
+    (h : FlagInv border (s :: ss) f) : FlagInv border ss (stepFlag ops border s f) := by
+  have hc := raiseClear_of_inv ops border s ss f h
+  obtain ⟨hlt, h89, h3, h45, cR, cF, hB⟩ := h
+  simp only [List.countP_cons] at h3 h45 cR cF
+  cases border
+  · have hbit : ∀ j, (stepFlag ops false s f).testBit j = expectedBit s f j := fun j => stepFlag_testBit ops hreg s f j hc
+    refine ⟨stepFlag_lt ops hreg false s f hlt, ?_, ?_, ?_, ?_, ?_, ?_⟩
+    · rw [hbit, hbit]; exact expectedBit_89 s f h89
+    · intro hcnt
+      have hs : isRefine s = false := by
+        cases hq : isRefine s
+        · rfl
+        · simp only [hq, if_true] at cR; omega
+      rw [hbit, expectedBit_3 s f hs]
+      exact h3 (by simp only [hs]; omega)
+    · intro hcnt
+      have hs : isFill s = false := by
+        cases hq : isFill s
+        · rfl
+        · simp only [hq, if_true] at cF; omega
+      rw [hbit, hbit, (expectedBit_45 s f hs).1, (expectedBit_45 s f hs).2]
+      exact h45 (by simp only [hs]; omega)
+    · omega
+    · omega
+    · intro hb; cases hb
+  · obtain ⟨hf, hsafe⟩ := hB rfl
+    obtain ⟨hs, hsafe'⟩ := borderSafe_cons true s ss hsafe rfl
+    rw [hf, stepFlag_border_one ops s hs]
+    refine ⟨by simp [leftNodataOrBorder], by decide, fun _ => by decide, fun _ => by decide, by omega, by omega,
+      fun _ => ⟨rfl, hsafe'⟩⟩
+
+/-- **Pipelines without a repeated refinement or interpolation** (`…_partial`): with the `+=` of the source,
+    from any flag the criteria can produce, every step of the run changes only its own bits, and a border pixel
+    keeps exactly bit 0 as long as no regularising `median_for_intervals` touches it.
+    (Full-strength statement — for *every* pipeline — is `run_ok_of_or` below; it needs `|=`.
+    It is false for `+=`: `repeated_refinement_counterexample`, `repeated_interpolation_counterexample`;
+    and false on the border after a regularisation: `border_regularized_counterexample`.) -/
+theorem run_ok_partial (ops : Ops) (hreg : ops.reg = .or) (border : Bool) (steps : List Step) (f : Nat)
+    (hinit : FlagInit f) (hn : NoRepeat steps = true)
+    (hb : border = true → f = leftNodataOrBorder ∧ BorderSafe border steps = true) :
+    runOK ops border steps f = true := by
+  have hinv := flagInv_of_init border steps f hinit hn hb
+  clear hinit hn hb
+  induction steps generalizing f with
+  | nil => rfl
+  | cons s ss ih =>
+    unfold runOK
+    rw [Bool.and_eq_true]
+    refine ⟨stepOK_of_clear ops hreg border s f hinv.1 (raiseClear_of_inv ops border s ss f hinv) ?_,
+      ih _ (flagInv_step ops hreg border s ss f hinv)⟩
+    intro hb
+    obtain ⟨hf, hsafe⟩ := hinv.2.2.2.2.2.2 hb
+    exact ⟨hf, (borderSafe_cons border s ss hsafe hb).1⟩
+
+/-- **Every pipeline, when the sites raise their bits with `|=`** (`later_steps_own_bits`, `bits_independent`,
+    `no_undocumented_bit` at full strength — the statement the proposed fix establishes). -/
+theorem run_ok_of_or (ops : Ops) (h : ops.refine = .or ∧ ops.fill = .or ∧ ops.reg = .or) (border : Bool)
+    (steps : List Step) (f : Nat) (hlt : f < 4096)
+    (hb : border = true → f = leftNodataOrBorder ∧ BorderSafe border steps = true) :
+    runOK ops border steps f = true := by
+  induction steps generalizing f with
+  | nil => rfl
+  | cons s ss ih =>
+    unfold runOK
+    rw [Bool.and_eq_true]
+    have hc : RaiseClear ops s f := by
+      cases s <;> simp only [RaiseClear] <;> first | exact Or.inl h.1 | exact Or.inl h.2.1 | trivial
+    have hb' : border = true → f = leftNodataOrBorder ∧ s ≠ .filterIntervals true := fun hbt =>
+      ⟨(hb hbt).1, (borderSafe_cons border s ss (hb hbt).2 hbt).1⟩
+    refine ⟨stepOK_of_clear ops h.2.2 border s f hlt hc hb', ih _ (stepFlag_lt ops h.2.2 border s f hlt) ?_⟩
+    intro hbt
+    obtain ⟨hf, hs⟩ := hb' hbt
+    subst hbt
+    rw [hf, stepFlag_border_one ops s hs]
+    exact ⟨rfl, (borderSafe_cons true s ss (hb rfl).2 rfl).2⟩
+
+/-- **Border pixels after a regularising `median_for_intervals`**: the step raises bit 11 on a border pixel it
+    lists in `mask_regularization` — "image-border pixels carry bit 0 only" is then false until the next
+    `mask_border` (cross-checking, mc-cnn interpolation). -/
+theorem border_regularized_counterexample (ops : Ops) (h : ops.reg = .or) :
+    stepFlag ops true (.filterIntervals true) leftNodataOrBorder = 2049
+    ∧ stepOK true (.filterIntervals true) leftNodataOrBorder (stepFlag ops true (.filterIntervals true) leftNodataOrBorder) = false
+    ∧ stepFlag ops true (.crossCheck .consistent) 2049 = leftNodataOrBorder := by
+  obtain ⟨r, c, fl, g⟩ := ops
+  simp only at h
+  subst h
+  cases r <;> cases c <;> cases fl <;> decide
+
+/-- **The full-strength statement is false for `+=`**: a second refinement that stops again on the same pixel
+    turns "stopped interpolation" (8) into "filled occlusion" (16) — bit 3 cleared, bit 4 raised. -/
+theorem repeated_refinement_counterexample (ops : Ops) (h : ops.refine = .add) :
+    runFlags ops false [.refine true, .refine true] 0 = 16
+    ∧ runOK ops false [.refine true, .refine true] 0 = false
+    ∧ NoRepeat [.refine true, .refine true] = false := by
+  obtain ⟨r, c, fl, g⟩ := ops
+  simp only at h
+  subst h
+  cases c <;> cases fl <;> cases g <;> decide
+
+/-- ... and a second validation with interpolation on a pixel found occluded again turns "filled occlusion"
+    (16) into "filled mismatch" (32). -/
+theorem repeated_interpolation_counterexample (ops : Ops) (h : ops.cc = .add ∧ ops.fill = .add) :
+    runFlags ops false [.crossCheck .occlusion, .interpMcCnn true true, .crossCheck .occlusion, .interpMcCnn true true] 0 = 32
+    ∧ runOK ops false [.crossCheck .occlusion, .interpMcCnn true true, .crossCheck .occlusion, .interpMcCnn true true] 0 = false := by
+  obtain ⟨r, c, fl, g⟩ := ops
+  simp only at h
+  obtain ⟨h1, h2⟩ := h
+  subst h1 h2
+  cases r <;> cases g <;> decide
+
+
+/-! ## Part 3 — the source, as regenerated on this run -/
+
+open Pandora.Generated.FlagOps in
+/-- the functions whose bit-raising operator (`+=` or `|=`) is a parameter of the model -/
+def laterStepFuncs : List String :=
+  ["loop_refinement", "loop_approximate_refinement", "disparity_checking", "interpolate_occlusion_mc_cnn",
+   "interpolate_mismatch_mc_cnn", "interpolate_occlusion_sgm", "interpolate_mismatch_sgm"]
+
+/-- `+=` and `|=` of the later steps are both written "raise" (which one it is, is read by `sourceOps`) -/
+def normSite (x : String × String × String) : String × String × String :=
+  if laterStepFuncs.contains x.1 && (x.2.1 == "add" || x.2.1 == "or") then (x.1, "raise", x.2.2) else x
+
+/-- what the model assumes of the source: every statement that updates a validity mask, in order -/
+def documentedSites : List (String × String × String) := [
+  ("validity_mask", "add", "cst.PANDORA_MSK_PIXEL_RIGHT_INCOMPLETE_DISPARITY_RANGE"),
+  ("validity_mask", "add", "cst.PANDORA_MSK_PIXEL_RIGHT_INCOMPLETE_DISPARITY_RANGE"),
+  ("validity_mask", "add", "cst.PANDORA_MSK_PIXEL_RIGHT_INCOMPLETE_DISPARITY_RANGE"),
+  ("validity_mask", "add", "cst.PANDORA_MSK_PIXEL_RIGHT_NODATA_OR_DISPARITY_RANGE_MISSING"),
+  ("allocate_left_mask", "add", "dil.astype(np.uint16) * cst.PANDORA_MSK_PIXEL_LEFT_NODATA_OR_BORDER"),
+  ("allocate_left_mask", "add", "xr.where((r_mask != img_left.attrs['no_data_mask']) & (r_mask != img_left.attrs['valid_pixels']), cst.PANDORA_MSK_PIXEL_IN_VALIDITY_MASK_LEFT, 0).astype(np.uint16)"),
+  ("allocate_right_mask", "add", "cst.PANDORA_MSK_PIXEL_IN_VALIDITY_MASK_RIGHT"),
+  ("allocate_right_mask", "add", "cst.PANDORA_MSK_PIXEL_RIGHT_NODATA_OR_DISPARITY_RANGE_MISSING"),
+  ("loop_refinement", "raise", "valid"),
+  ("loop_refinement", "raise", "cst.PANDORA_MSK_PIXEL_STOPPED_INTERPOLATION"),
+  ("loop_approximate_refinement", "raise", "valid"),
+  ("loop_approximate_refinement", "raise", "cst.PANDORA_MSK_PIXEL_STOPPED_INTERPOLATION"),
+  ("disparity_checking", "raise", "cst.PANDORA_MSK_PIXEL_OCCLUSION"),
+  ("disparity_checking", "raise", "(cst.PANDORA_MSK_PIXEL_MISMATCH * comp).astype(np.uint16)"),
+  ("disparity_checking", "sub", "(cst.PANDORA_MSK_PIXEL_OCCLUSION * comp).astype(np.uint16)"),
+  ("disparity_checking", "raise", "cst.PANDORA_MSK_PIXEL_OCCLUSION"),
+  ("interpolate_occlusion_mc_cnn", "sub", "cst.PANDORA_MSK_PIXEL_OCCLUSION * msk[arg_valid]"),
+  ("interpolate_occlusion_mc_cnn", "raise", "cst.PANDORA_MSK_PIXEL_FILLED_OCCLUSION * msk[arg_valid]"),
+  ("interpolate_occlusion_mc_cnn", "sub", "cst.PANDORA_MSK_PIXEL_OCCLUSION * msk[arg_valid]"),
+  ("interpolate_occlusion_mc_cnn", "raise", "cst.PANDORA_MSK_PIXEL_FILLED_OCCLUSION * msk[arg_valid]"),
+  ("interpolate_mismatch_mc_cnn", "sub", "cst.PANDORA_MSK_PIXEL_MISMATCH"),
+  ("interpolate_mismatch_mc_cnn", "raise", "cst.PANDORA_MSK_PIXEL_FILLED_MISMATCH"),
+  ("interpolate_occlusion_sgm", "sub", "cst.PANDORA_MSK_PIXEL_OCCLUSION"),
+  ("interpolate_occlusion_sgm", "raise", "cst.PANDORA_MSK_PIXEL_FILLED_OCCLUSION"),
+  ("interpolate_mismatch_sgm", "sub", "cst.PANDORA_MSK_PIXEL_MISMATCH"),
+  ("interpolate_mismatch_sgm", "raise", "cst.PANDORA_MSK_PIXEL_OCCLUSION"),
+  ("interpolate_mismatch_sgm", "sub", "cst.PANDORA_MSK_PIXEL_MISMATCH"),
+  ("interpolate_mismatch_sgm", "raise", "cst.PANDORA_MSK_PIXEL_FILLED_MISMATCH"),
+  ("filter_disparity", "or", "PANDORA_MSK_PIXEL_INTERVAL_REGULARIZED")
+]
+
+/-- The statements that update a validity mask in the source are the ones the model follows: same functions,
+    same order, same constants; `+=` in criteria.py, `|=` in median_for_intervals.py. -/
+theorem sites_documented : Generated.FlagOps.sites.map normSite = documentedSites := by decide +kernel
+
+/-- the refinement methods return 0 or `PANDORA_MSK_PIXEL_STOPPED_INTERPOLATION` as the value added to the mask -/
+theorem refinement_returns_documented :
+    Generated.FlagOps.refinementReturns.all (fun x => x.2 == "0" || x.2 == "cst.PANDORA_MSK_PIXEL_STOPPED_INTERPOLATION") = true := by
+  decide
+
+/-- the constants of pandora/constants.py are the documented bits the model uses -/
+theorem constants_documented :
+    Generated.Constants.PANDORA_MSK_PIXEL_LEFT_NODATA_OR_BORDER = leftNodataOrBorder
+    ∧ Generated.Constants.PANDORA_MSK_PIXEL_RIGHT_NODATA_OR_DISPARITY_RANGE_MISSING = rightNodataOrRangeMissing
+    ∧ Generated.Constants.PANDORA_MSK_PIXEL_RIGHT_INCOMPLETE_DISPARITY_RANGE = rightIncompleteRange
+    ∧ Generated.Constants.PANDORA_MSK_PIXEL_STOPPED_INTERPOLATION = stoppedInterpolation
+    ∧ Generated.Constants.PANDORA_MSK_PIXEL_FILLED_OCCLUSION = filledOcclusion
+    ∧ Generated.Constants.PANDORA_MSK_PIXEL_FILLED_MISMATCH = filledMismatch
+    ∧ Generated.Constants.PANDORA_MSK_PIXEL_IN_VALIDITY_MASK_LEFT = inValidityMaskLeft
+    ∧ Generated.Constants.PANDORA_MSK_PIXEL_IN_VALIDITY_MASK_RIGHT = inValidityMaskRight
+    ∧ Generated.Constants.PANDORA_MSK_PIXEL_OCCLUSION = occlusion
+    ∧ Generated.Constants.PANDORA_MSK_PIXEL_MISMATCH = mismatch
+    ∧ Generated.Constants.PANDORA_MSK_PIXEL_INTERVAL_REGULARIZED = intervalRegularized
+    ∧ Generated.Constants.PANDORA_MSK_PIXEL_INVALID = pixelInvalid := by decide
+
+/-- `add` unless every bit-raising site of the group is written `|=` -/
+def groupOp (funcs : List String) : AddOp :=
+  let ops := (Generated.FlagOps.sites.filter fun x => funcs.contains x.1 && x.2.1 != "sub").map (·.2.1)
+  if !ops.isEmpty && ops.all (· == "or") then .or else .add
+
+/-- the operators the source uses now -/
+def sourceOps : Ops :=
+  { refine := groupOp ["loop_refinement", "loop_approximate_refinement"],
+    cc := groupOp ["disparity_checking"],
+    fill := groupOp ["interpolate_occlusion_mc_cnn", "interpolate_mismatch_mc_cnn", "interpolate_occlusion_sgm", "interpolate_mismatch_sgm"],
+    reg := groupOp ["filter_disparity"] }
+
+theorem source_reg_or : sourceOps.reg = .or := by decide
+
+/-! ## Part 4 — the whole story, for the source as it is now -/
+
+theorem flagInit_modelMask (J : CvInput) (r c : Nat) (hd : J.dmin ≤ J.dmax) (hr : r < J.rows) (hc : c < J.cols) :
+    FlagInit (modelMask J r c) := by
+  cases hb : isBorder J.toInput r c
+  · obtain ⟨_, _, _, _, _, _, klt, k3, k4, k5⟩ := criteria_interior J r c hd (interior_of_not_border _ r c hr hc hb)
+    have e3 := hasBit_two_pow (modelMask J r c) 3
+    have e4 := hasBit_two_pow (modelMask J r c) 4
+    have e5 := hasBit_two_pow (modelMask J r c) 5
+    simp only [Nat.reducePow] at e3 e4 e5
+    exact ⟨klt, by rw [← e3]; exact k3, by rw [← e4]; exact k4, by rw [← e5]; exact k5⟩
+  · rw [(criteria_border J r c hb).1]
+    exact ⟨by decide, by decide, by decide, by decide⟩
+
+/-- **C04 for the code as it is** — for every image pair, mask layout, interval, window, sub-pixel factor,
+    every in-image pixel, and every sequence of later steps with arbitrary decisions:
+    (1) the mask built with the cost volume satisfies every "before validation" clause (`criteria_spec`);
+    (2) no undocumented bit ever appears, whatever is repeated;
+    (3) when no refinement and no interpolation is repeated (and no regularisation touches a border pixel),
+        each step changes only its own bits and border pixels keep exactly bit 0;
+    (4) were every site to use `|=`, (3) would hold for every pipeline. -/
+theorem source_story (J : CvInput) (invalid : Val) (r c : Nat) (hd : J.dmin ≤ J.dmax) (hr : r < J.rows) (hc : c < J.cols)
+    (steps : List Step) (hsafe : BorderSafe (isBorder J.toInput r c) steps = true) :
+    failingClauses J invalid r c (modelMask J r c) (allNanOf J r c) none = []
+    ∧ runFlags sourceOps (isBorder J.toInput r c) steps (modelMask J r c) < 4096
+    ∧ (NoRepeat steps = true → runOK sourceOps (isBorder J.toInput r c) steps (modelMask J r c) = true)
+    ∧ ((sourceOps.refine = .or ∧ sourceOps.fill = .or) →
+        runOK sourceOps (isBorder J.toInput r c) steps (modelMask J r c) = true) := by
+  have hinit := flagInit_modelMask J r c hd hr hc
+  have hlt : modelMask J r c < 4096 := by have := hinit.1; omega
+  have hb : isBorder J.toInput r c = true →
+      modelMask J r c = leftNodataOrBorder ∧ BorderSafe (isBorder J.toInput r c) steps = true :=
+    fun hbt => ⟨(criteria_border J r c hbt).1, hsafe⟩
+  exact ⟨criteria_spec J invalid r c hd hr hc,
+    run_lt_4096 sourceOps source_reg_or _ steps _ hlt,
+    fun hn => run_ok_partial sourceOps source_reg_or _ steps _ hinit hn hb,
+    fun h => run_ok_of_or sourceOps ⟨h.1, h.2, source_reg_or⟩ _ steps _ hlt hb⟩
+
+/-- ... and, as long as the source raises bit 3 with `+=`, the repeated refinement really breaks the
+    independence of the bits (this theorem stays true, vacuously, once the source is fixed). -/
+theorem source_repeated_refinement :
+    sourceOps.refine = .add →
+      runFlags sourceOps false [.refine true, .refine true] 0 = 16
+      ∧ runOK sourceOps false [.refine true, .refine true] 0 = false :=
+  fun h => ⟨(repeated_refinement_counterexample sourceOps h).1, (repeated_refinement_counterexample sourceOps h).2.1⟩
+
+/-! ### `invalid_disparity`: NaN or outside the searched interval is enough -/
+
+theorem sample_ne_of_outside (dmin dmax : Int) (s j : Nat) (q : Rat) (hs : 0 < s)
+    (hj : j ≤ (dmax - dmin).toNat * s) (hd : dmin ≤ dmax)
+    (hq : q < (dmin : Rat) ∨ (dmax : Rat) < q) : (dmin : Rat) + (j : Rat) / (s : Rat) ≠ q := by
+  have hs' : (0 : Rat) < (s : Rat) := Rat.natCast_pos.mpr hs
+  have h0 : ¬ ((j : Rat) / (s : Rat) < 0) := by
+    rw [Rat.div_lt_iff hs']
+    have : (0 : Rat) ≤ (j : Rat) := Rat.natCast_nonneg
+    grind
+  have h1 : ¬ (((dmax - dmin).toNat : Rat) < (j : Rat) / (s : Rat)) := by
+    rw [Rat.lt_div_iff hs', ← Rat.natCast_mul, Rat.not_lt, Rat.natCast_le_natCast]
+    exact hj
+  have h2 : ((dmax - dmin).toNat : Rat) = (dmax : Rat) - (dmin : Rat) := by
+    have : ((dmax - dmin).toNat : Int) = dmax - dmin := by omega
+    rw [← Rat.intCast_natCast, this]
+    exact Rat.intCast_sub _ _
+  rw [h2] at h1
+  generalize (j : Rat) / (s : Rat) = x at h0 h1
+  grind
+
+/-- the quantifier of the property ("NaN or outside the searched interval") implies the hypothesis of
+    `criteria_spec_disp` -/
+theorem invalidNotSample_of_outside (J : CvInput) (invalid : Val) (hs : 0 < J.subpix) (hd : J.dmin ≤ J.dmax)
+    (h : invalid = Val.nan ∨ ∃ q, invalid = Val.num q ∧ (q < (J.dmin : Rat) ∨ (J.dmax : Rat) < q)) :
+    InvalidNotSample J.dmin J.subpix (nDisp J) invalid := by
+  intro j hj
+  rcases h with rfl | ⟨q, rfl, hq⟩
+  · rfl
+  · unfold sameVal
+    have := sample_ne_of_outside J.dmin J.dmax J.subpix j q hs (by unfold nDisp at hj; omega) hd hq
+    simpa using this
+
+/-! ### non-vacuity: a concrete scene satisfies the hypotheses and exercises the clauses -/
+
+/-- 3 × 7 scene, 3 × 3 window, interval [-2, 1], sub-pixel 2; a nodata cell in the left mask, two masked columns
+    in the right mask -/
+def exJ : CvInput :=
+  { rows := 3, cols := 7, off := 1, col0 := 0, dmin := -2, dmax := 1, hasL := true,
+    mL := fun r c => if r = 0 ∧ c = 5 then Cls.nodata else Cls.valid,
+    hasR := true, mR := fun _ c => if c ≤ 2 then Cls.invalid else Cls.valid,
+    subpix := 2, pixMin := fun _ _ => -2, pixMax := fun _ _ => 1 }
+
+example : exJ.dmin ≤ exJ.dmax := by decide
+example : (List.range 7).map (modelMask exJ 1) = [1, 134, 4, 0, 3, 7, 1] := by decide
+example : failingClauses exJ (Val.num (-9999)) 1 1 (modelMask exJ 1 1) (allNanOf exJ 1 1) none = [] := by decide
+/-- a wrong mask value is caught by the executable specification -/
+example : failingClauses exJ (Val.num (-9999)) 1 1 4 (allNanOf exJ 1 1) none
+    = ["invalid_iff_all_nan", "bit1_cause", "bit7_cause"] := by decide
+example : InvalidNotSample exJ.dmin exJ.subpix (nDisp exJ) (Val.num (-9999)) :=
+  invalidNotSample_of_outside exJ _ (by decide) (by decide) (Or.inr ⟨-9999, rfl, Or.inl (by decide)⟩)
+example : NoRepeat [.refine true, .filter, .crossCheck .mismatch, .interpSgm false true true, .crossCheck .consistent] = true := by decide
+example : runFlags Ops.current false [.refine true, .filter, .crossCheck .mismatch, .interpSgm false true true] 4 = 44 := by decide
+example : sourceOps = Ops.current ∨ sourceOps.refine = .or ∨ sourceOps.fill = .or ∨ sourceOps.cc = .or := by decide
+
+end Pandora.C04
